@@ -27,7 +27,7 @@ func cmdArrayRun(args []string) {
 	fs := flag.NewFlagSet("array-run", flag.ExitOnError)
 	in := fs.String("in", "", "histories ndjson (first line cfg)")
 	out := fs.String("out", "", "trace ndjson")
-	mode := fs.String("mode", "edge", "edge|full|tail")
+	mode := fs.String("mode", "edge", "edge|full|tail|scan")
 	tail := fs.Int("tail", 40, "tail mode: number of final operations recorded")
 	probe := fs.String("probe", "", "comma list of probes run at the end of every history: iter,partial,batch,copy,mutiter")
 	pseed := fs.Int64("seed", 1, "seed for probe choices")
@@ -67,6 +67,16 @@ func cmdArrayRun(args []string) {
 		}
 		if *mode == "tail" && len(ops) > *tail {
 			from = len(ops) - *tail
+		}
+		if *mode == "scan" {
+			// boundary scan: after every operation report whether an index slab is full (one more child header would exceed
+			// the maximum); the orchestrator replays TLC's one-step closure from exactly those states
+			for k, op := range ops {
+				w.ExecSilent(op)
+				fl, rc := w.boundaryFlags("a")
+				wr.Write(map[string]any{"t": t, "n": k + 1, "flags": fl, "rc": rc})
+			}
+			return
 		}
 		for _, op := range ops[:from] {
 			w.ExecSilent(op)
